@@ -19,6 +19,11 @@
 (*                                                                          *)
 (* Impl layer: PStep is one step of the generated loop of LayersDecoder     *)
 (* followed by the tail of DecodeLayers; ParserResult is its fixpoint.      *)
+(* The model starts from a cold parser and an empty `decoded` slice; the    *)
+(* driver also replays with a parser that decoded a truncated packet before *)
+(* and with a non-empty slice ("DecodeLayers truncates the 'decoded' slice  *)
+(* initially") - the verdict there comes from the real packet, not from     *)
+(* this model.                                                              *)
 (* Prop layer: LeadingRun(steps, S, ig, zeroT) over what eager decoding did *)
 (* (`steps`: type and success of every decoder call it made) is what a      *)
 (* parser over the container set S has to report; Conforms compares.        *)
